@@ -10,6 +10,7 @@ coordinates the real read side handed to _apply_change / _delete_nodes go to
 the model; the model's post-state must equal the real post-state node by node
 (data, order, anchors, identity classes).  After every step the real document
 is dumped with the project's editor and reloaded with Parsers.get_yaml_data."""
+import json
 import random
 
 import docenc
@@ -25,11 +26,14 @@ CONFIG = {
              "and as set members, empty containers, nested sequences) x histories of length <= 4 (quick) / <= 6 "
              "(thorough) of Set (every value format and scalar type, mustexist on/off, paths: exact, negative index, "
              "wildcard, search, **, [name()], Collector unions) and Delete operations, every path generated from the "
-             "current real document to match >= 1 node.  non-trivial = at least one step applied a change; "
+             "current real document to match >= 1 node; plus a structured stream (n/15 cases) for the alias-used-as-a-key "
+             "branch: a mapping with an anchored key, aliases of it as value / element / key of a second mapping, changed "
+             "through a value alias to a sibling key (refused), to itself, or to a fresh name (renamed).  "
+             "non-trivial = at least one step applied a change; "
              "distinct = distinct (document, seed)."),
     "trusted_base": [
         "modelled, not verified: yamlpath/processor.py set_value/_apply_change/_update_node+recurse (169-343, "
-        "2630-2760), yamlpath/common/nodes.py make_new_node/wrap_type/typed_value; the read side is NOT modelled: the "
+        "2700-2860 incl. the duplicate-key refusal of fix 7612ed9), yamlpath/common/nodes.py make_new_node/wrap_type/typed_value; the read side is NOT modelled: the "
         "NodeCoords handed to _apply_change are captured from the real run",
         "oracles: ast.literal_eval and float() (tabulated from the real library per case)",
         "value formats DATE and TIMESTAMP, custom tags, and new values that make_new_node leaves as a bare Python str "
@@ -200,6 +204,8 @@ def set_step(p, path, value, fmt, mustexist):
             orig_update(parent, parentref, val, value_format, value_tag)
         except Exception as e:  # noqa
             post_text = docenc.canon_doc_text(docenc.encode(p.data)[0])
+            if parent is not None and ent is None:
+                rec["detached"] = True      # the parent object is no longer part of the document (outside the model)
             old0 = None
             if ent is not None and idx is not None:
                 old0 = ent[1][idx][1] if ent[0] == "M" else ent[1][idx]
@@ -307,7 +313,7 @@ def run_case(case):
         _CACHE.clear()
     E = mutgen.init_env()
     text, seed, length = case
-    rng = random.Random(seed)
+    rng = random.Random(seed if isinstance(seed, int) else 0)
     steps = []
     try:
         data = mutgen.load(text)
@@ -315,11 +321,28 @@ def run_case(case):
         _CACHE[case] = steps
         return steps
     p = E["Processor"](E["log"], data)
-    for _ in range(length):
+    script = None
+    if isinstance(seed, str) and seed.startswith("script:"):
+        # a scripted history (corpus / alias-key stream): the steps are given, not drawn
+        script = json.loads(seed[len("script:"):])
+        rng = random.Random(len(seed))
+        length = len(script)
+    for stepno in range(length):
         if p.data is None or not isinstance(p.data, (dict, list)):
             break
         r = rng.random()
-        if r < 0.75:
+        if script is not None and script[stepno][0] == "set":
+            _, path, value, fmt = script[stepno]
+            rec = set_step(p, path, value, fmt, True)
+            rec["desc"] = ("set", path, repr(value), fmt)
+        elif script is not None:
+            path = script[stepno][1]
+            rec = c04.delete_record(p, path)
+            rec["op"] = "del"
+            rec["desc"] = ("del", path)
+            if rec["kind"] == "run":
+                rec["request"] = "(delete %s %s %s)" % (rec["before"], rec["coords_sexp"], rec["mg_sexp"])
+        elif r < 0.75:
             path = mutgen.gen_path(rng, p.data, allow_root=rng.random() < 0.3)
             value = gen_value(rng)
             fmt = rng.choice(FORMATS)
@@ -370,8 +393,6 @@ def judge_step(rec):
         return None
     if rec["op"] == "del":
         v = c04.judge_record(rec)
-        if v is not None and (c04._f15(None, None) if False else (not rec["guard"])):
-            v = None        # C04's known findings are C04's business
         if v is not None:
             return "delete step: " + v
     else:
@@ -423,6 +444,10 @@ def classify(case, obs):
         else:
             n = rec["applied"]
             ks.append(("s%d" % min(n, 3)) if rec["exc"] is None else "S")
+            if any(lc.get("key_target") for lc in rec["leaf"]):
+                ks.append("k")          # an alias of the changed node is a mapping key: renamed with it
+            if rec["exc"] is not None and type(rec["exc"]).__name__ == "DuplicateKeyYAMLPathException":
+                ks.append("K")          # ... or the change was refused (the new key exists)
     return "len%d:%s" % (len(steps), "".join(ks))
 
 
@@ -451,22 +476,79 @@ def _folded_flow(case, obs):
     return False
 
 
-def _key_collision(case, obs):
-    """An alias of the changed anchored node is used as a mapping key and the new value equals a sibling key."""
-    for rec in run_case(case):
-        if rec["kind"] == "run" and rec["op"] == "set":
-            for lc in rec["leaf"]:
-                if lc.get("exc") is None and not lc.get("noop_expected") and lc.get("key_target") \
-                        and sets_sorted(lc["post"]) != sets_sorted(lc["expected"]):
-                    return True
-    return False
+FINDING_PREDS = {"folded_scalar_in_flow_collection": _folded_flow}
 
 
-FINDING_PREDS = {"folded_scalar_in_flow_collection": _folded_flow, "alias_key_collision": _key_collision}
+def script_case(text, steps):
+    return (text, "script:" + json.dumps(steps), len(steps))
+
+
+# minimised past failures and witnesses; first the former known finding F24 (fixed 7612ed9): an alias of the changed
+# anchored node is a mapping KEY and the new value equals / does not equal a sibling key
+CORPUS = [
+    script_case("{m: {foo: bar, &n1 x: a}, c: *n1}", [["set", "c", "foo", "DEFAULT"]]),
+    script_case("{m: {&n1 x: a, foo: bar}, c: *n1}", [["set", "c", "foo", "DEFAULT"]]),
+    script_case("{m: {foo: bar, &n1 x: a}, c: *n1}", [["set", "c", "new", "DEFAULT"]]),
+    script_case("{m: {foo: bar, &n1 x: a}, c: *n1}", [["set", "c", "x", "DEFAULT"]]),
+    script_case("{m: {foo: bar, &n1 x: a}, c: *n1, d: {*n1 : 1, foo: 2}}", [["set", "c", "foo", "DEFAULT"]]),
+    script_case("{m: {foo: bar, &n1 x: a}, c: *n1, d: {*n1 : 1, k1: 2}}", [["set", "c", "k1", "DEFAULT"]]),
+    script_case("{1: a, &n1 x: b, c: *n1}", [["set", "c", "1", "DEFAULT"]]),
+    script_case("{m: {foo: bar, &n1 x: a}, l: [*n1, z]}", [["set", "l[0]", "foo", "DQUOTE"], ["set", "l[0]", "y", "DEFAULT"]]),
+    # thorough tier, round fixer2: the third change addresses a list that the first change detached; the real code then
+    # refuses (the key b of the first mapping is an alias of the node in the detached list, c is a sibling key), the
+    # model does not follow detached parents: must be classified detached-parent, not compared
+    script_case("[{&n1 b: {c: '', k1: b, e: \"dq\"}, x: {e: x, c: 5}, a: *n1, c: 1.5}, [[*n1, &n2 -3], k1, [foo, &n3 c, x], []], bar]",
+                [["set", "([1][0])+([-2][0][-2])", "c", "DEFAULT"]]),
+    # former C04 F15 inside a history
+    script_case("{a: [1, 2, 3, 4]}", [["del", "(a[2])+(a[0])"], ["set", "a[0]", "9", "DEFAULT"]]),
+]
+
+
+def roundtrips(text):
+    """ruamel itself dumps and reloads this document to the same data (alias keys / sets in flow style often do not):
+    the reload clause of the judge is only meaningful for such documents."""
+    try:
+        data = mutgen.load(text)
+        ok, docs, _ = mutgen.dump_reload(data)
+        return bool(ok and plain(docs) == plain(data))
+    except Exception:  # noqa
+        return False
 
 
 def corpus_chunks():
-    return []
+    mutgen.init_env()
+    yield [c for c in CORPUS if roundtrips(c[0])]
+
+
+def alias_key_cases(rng, n):
+    """Structured stream for the alias-used-as-a-key branch of recurse(): a mapping m one of whose keys is anchored,
+    aliases of that key as a value / a sequence element (an alias key of a second mapping does not survive ruamel's
+    own dump + reload in flow style and is left to the corpus); the change goes through one of
+    the value aliases and the new value is a sibling key (refused), the key itself, or a fresh name (renamed)."""
+    names = ["foo", "bar", "k1", "x", "b", "5", "q", "1.5", "true"]
+    out = []
+    for _ in range(n):
+        ks = rng.sample(names, rng.randint(2, 4))
+        ak = rng.choice(ks)
+        ents = ", ".join(("&n1 %s: v%d" % (k, j)) if k == ak else ("%s: v%d" % (k, j)) for j, k in enumerate(ks))
+        parts = ["m: {%s}" % ents, "c: *n1"]
+        paths = ["c"]
+        if rng.random() < 0.5:
+            parts.append("l: [z, *n1]")
+            paths.append("l[1]")
+        if rng.random() < 0.3:
+            parts.append("%s: 7" % rng.choice(names))       # a top-level bystander, possibly spelled like a key of m
+        rest = parts[1:]
+        rng.shuffle(rest)                                   # the anchor must precede its aliases
+        text = "{%s}" % ", ".join(parts[:1] + rest)
+        if not roundtrips(text):
+            continue
+        steps = []
+        for _ in range(rng.randint(1, 2)):
+            value = rng.choice(ks + names + ["new", "zz", ak])
+            steps.append(["set", rng.choice(paths), value, rng.choice(["DEFAULT"] * 4 + ["DQUOTE", "BARE", "INT", "BOOLEAN"])])
+        out.append(script_case(text, steps))
+    return out
 
 
 def chunks(tier, seed):
@@ -474,6 +556,10 @@ def chunks(tier, seed):
     n = 60000 if tier == "thorough" else 6000
     maxlen = 6 if tier == "thorough" else 4
     size = 150
+    mutgen.init_env()
+    ak = alias_key_cases(random.Random(seed * 13 + 5), n // 15)
+    for j in range(0, len(ak), size):
+        yield ak[j:j + size]
     buf = []
     i = 0
     tries = 0
